@@ -223,14 +223,8 @@ def default_ns_meets_prefix(real, o, live):
         return False
     if o[0] in ("append", "prepend", "insert", "setitem"):
         ctx = tgt._etree_obj if isinstance(tgt, TagNode) else None
-        if o[0] == "setitem" and ctx is not None and len(ctx):
-            pass
     else:
-        par = tgt.parent if not isinstance(tgt, TextNode) or tgt._position != 0 else None
-        try:
-            par = tgt.parent
-        except Exception:  # noqa: BLE001
-            par = None
+        par = tgt.parent
         ctx = par._etree_obj if par is not None else None
     if ctx is None:
         return False
